@@ -2,7 +2,7 @@
    Only statements here; proofs live in MJ.C17.Proofs.
    Names and bases: EVERY list of code points (every Rust &str and more), any length, any depth.
    Unix path semantics; symbolic links aside (as the property says). *)
-From MJ Require Import Common.Base C17.Model C17.Spec C17.Proofs.
+From MJ Require Import Common.Base C17.Model C17.Spec C17.Proofs C17.Accept.
 
 (* Whatever safe_join accepts resolves to the base's own location followed by the non-empty
    segments of the name, and each of those can only descend: it is not empty, does not start with
@@ -95,3 +95,19 @@ Print Assumptions names_from_templates_joined.
 Print Assumptions loader_asked_with_joined_name.
 Print Assumptions include_asks_joined_names.
 Print Assumptions include_confined.
+
+(* ---- the acceptance set, exactly ---- *)
+
+(* safe_join refuses a name exactly when one of its '/'-separated segments starts with a dot or
+   contains a backslash: confinement is not bought by refusing more than that, and whether a name
+   is accepted does not depend on the base directory. *)
+Theorem safe_join_rejects_exactly : forall base nm,
+  safe_join base nm = None <-> existsb bad_segment (split_slash nm) = true.
+Proof. exact safe_join_none_iff. Qed.
+
+Theorem safe_join_acceptance_base_independent : forall base base' nm,
+  safe_join base nm = None <-> safe_join base' nm = None.
+Proof. exact safe_join_accept_base_independent. Qed.
+
+Print Assumptions safe_join_rejects_exactly.
+Print Assumptions safe_join_acceptance_base_independent.
